@@ -55,7 +55,18 @@ CONST_FNS = {
     "floor-then-smooth": ("lambda x: np.sum(np.sin(np.floor(x)) * AA[0])", "scalar"),
 }
 OPERATORS = ["grad", "value_and_grad", "elementwise_grad", "jacobian", "make_vjp", "make_jvp", "deriv", "hessian", "make_hvp", "grad-of-grad",
-             "holomorphic_grad", "grad_and_aux", "tensor_jacobian_product", "hessian_tensor_product"]
+             "holomorphic_grad", "grad_and_aux", "tensor_jacobian_product", "hessian_tensor_product", "make_vjp-reused", "grad-reused"]
+
+
+def _scribble(v):
+    if isinstance(v, dict):
+        for e in v.values():
+            _scribble(e)
+    elif isinstance(v, (tuple, list)):
+        for e in v:
+            _scribble(e)
+    elif isinstance(v, onp.ndarray) and v.flags.writeable:
+        v[...] = 7.0
 
 
 def const_factory(quick, seed):
@@ -103,6 +114,17 @@ def const_factory(quick, seed):
                 elif op == "make_vjp":
                     vjp, v = ag.make_vjp(f)(x)
                     res = ("arg", vjp(vspace(v).ones()))
+                elif op == "make_vjp-reused":
+                    # the caller owns each result: overwriting the first one must not show in the second
+                    vjp, v = ag.make_vjp(f)(x)
+                    _scribble(vjp(vspace(v).ones()))
+                    res = ("arg", vjp(vspace(v).ones()))
+                elif op == "grad-reused":
+                    if outkind != "scalar":
+                        raise Skip("")
+                    gf = ag.grad(f)
+                    _scribble(gf(x))
+                    res = ("arg", gf(x))
                 elif op == "make_jvp":
                     v, t = ag.make_jvp(f)(x)(vspace(x).ones())
                     res = ("out", t, v)
@@ -231,7 +253,9 @@ def nograd_factory(quick, seed):
             expr = "np.%s(%s)" % (fn, form)
         else:
             expr = ch.choose("expr", METHODS)
-        mode = ch.choose("mode", ["vjp", "jvp", "nested"])
+        mode = ch.choose("mode", ["vjp", "jvp", "nested", "mixed-rr", "mixed-fr", "mixed-rf"])
+        if mode.startswith("mixed") and not __import__("re").search(r"\by\b", expr):
+            raise Skip("single operand")
         ns_np = dict(np=onp, onp=onp, x=x, y=y, ab=_PlainBuiltins)
         try:
             want = eval(expr, ns_np)
@@ -239,8 +263,8 @@ def nograd_factory(quick, seed):
             raise Skip("NumPy rejects")
         got = {}
 
-        def f(xx):
-            r = eval(expr, dict(np=np, onp=onp, x=xx, y=y, ab=ab))
+        def f(xx, yy=y):
+            r = eval(expr, dict(np=np, onp=onp, x=xx, y=yy, ab=ab))
             got["r"] = r
             return np.sum(xx * 1.0)
 
@@ -251,6 +275,14 @@ def nograd_factory(quick, seed):
                     ag.make_vjp(f)(x)
                 elif mode == "jvp":
                     ag.make_jvp(f)(x)(onp.ones(shape))
+                elif mode.startswith("mixed"):
+                    # the two operands are variables of DIFFERENT nesting levels (y: enclosing differentiation, x: inner one)
+                    inner_op = (lambda fn, p: ag.grad(fn)(p)) if mode[-1] == "r" else (lambda fn, p: ag.make_jvp(fn)(p)(onp.ones(shape))[1])
+                    body = lambda a: np.sum(inner_op(lambda b: f(b, a) * np.sum(a * a), x))
+                    if mode[-2] == "r":
+                        ag.grad(body)(y)
+                    else:
+                        ag.make_jvp(body)(y)(onp.ones(shape))
                 else:
                     ag.grad(lambda a: np.sum(ag.grad(lambda b: f(b) * np.sum(a))(a)))(x)
             except Exception as e:
